@@ -75,4 +75,558 @@ theorem pbs_validStep (p : Params) (n : Node) (b : Blk) (par : Nat) (hi : Inv p 
       simp only
       rw [hf.2.1]; exact hps
 
+
+/-- *reachable within `D`*: the block and all its ancestors down to the genesis pass their own
+step and have been delivered -/
+inductive Reach (p : Params) (N : Node) (D : List Nat) : Nat → Prop
+  | genesis : Reach p N D 0
+  | child (b : Blk) (par : Nat) : ValidStep p N b par → Reach p N D par → b.id ∈ D → Reach p N D b.id
+
+theorem Reach.mono {p : Params} {N : Node} {D D' : List Nat} (hsub : ∀ d ∈ D, d ∈ D') {id : Nat}
+    (h : Reach p N D id) : Reach p N D' id := by
+  induction h with
+  | genesis => exact .genesis
+  | child b par hv _ hd ih => exact .child b par hv ih (hsub _ hd)
+
+theorem Reach.vop {p : Params} {N : Node} {D : List Nat} {id : Nat} (h : Reach p N D id) :
+    VOP p N id := by
+  induction h with
+  | genesis => exact .genesis
+  | child b par hv _ _ ih =>
+    obtain ⟨hb, hpar, hok, s', hc⟩ := hv
+    exact .child b par s' hb hpar ih hok hc
+
+/-- the standing facts about a node `n` during a history over the definitions of `N` with
+delivered ids `D`: same definitions, all node invariants, pool ⊆ delivered, delivered headers
+known, stored blocks reachable within `D` -/
+structure Ctx (p : Params) (N n : Node) (D : List Nat) : Prop where
+  blks : n.blks = N.blks
+  outs : n.outs = N.outs
+  inv : Inv p n
+  pool : ∀ o ∈ n.orphans, o ∈ D
+  hdrs : ∀ d ∈ D, d ∈ n.headers
+  sound : ∀ s ∈ n.stored, Reach p N D s
+
+theorem Ctx.single {p : Params} {N n : Node} {D : List Nat} (hc : Ctx p N n D) (b : Blk)
+    (hb : n.blk b.id = some b) (hd : b.id ∈ D) : Ctx p N (processBlockSingle p n b).1 D := by
+  have hdf := processBlockSingle_defs p n b
+  have hi' := (preserved_inv p).single n b hb hc.inv
+  refine ⟨hdf.1.trans hc.blks, hdf.2.trans hc.outs, hi', ?_, ?_, ?_⟩
+  · intro o ho
+    rcases pbs_orphans_sub p n b o ho with h | h
+    · exact hc.pool o h
+    · exact h ▸ hd
+  · intro d hd'
+    exact pbs_headers_mono p n b d (hc.hdrs d hd')
+  · intro s hs
+    rcases pbs_stored_sub p n b s hs with h | h
+    · exact hc.sound s h
+    · subst h
+      by_cases h0 : b.id = 0
+      · rw [h0]; exact .genesis
+      · have hbN : N.blk b.id = some b := by rw [← blk_congr hc.blks]; exact hb
+        have hv : VOP p N b.id :=
+          (VOP_congr (hdf.2.trans hc.outs) (hdf.1.trans hc.blks) p b.id).mp (hi'.2.valid b.id hs)
+        obtain ⟨par, s', hpar, _, hok, hck⟩ := hv.inv hbN h0
+        have hps : par ∈ n.stored := by
+          by_cases hin : b.id ∈ n.stored
+          · exact hc.inv.2.closed.parent b.id hin b par hb hpar
+          · rcases processBlockSingle_core p n b with ⟨_, hst, _⟩ | ⟨par', _, hpar', hp, _, _, _, _⟩
+            · rw [hst] at hs; exact absurd hs hin
+            · rw [hpar] at hpar'; cases hpar'
+              rcases hp with h | h
+              · exact h ▸ hc.inv.2.closed.head
+              · exact h
+        exact .child b par ⟨hbN, hpar, hok, s', hck⟩ (hc.sound par hps) hd
+
+theorem Ctx.shrink {p : Params} {N n : Node} {D : List Nat} (hc : Ctx p N n D) (os : List Nat)
+    (hsub : ∀ o ∈ os, o ∈ n.orphans) : Ctx p N { n with orphans := os } D :=
+  ⟨hc.blks, hc.outs, (preserved_inv p).orphans n os hc.inv, fun o ho => hc.pool o (hsub o ho),
+    hc.hdrs, hc.sound⟩
+
+/-- the number of stored blocks is bounded by the number of definitions (plus the genesis) -/
+theorem Ctx.stored_le {p : Params} {N n : Node} {D : List Nat} (hc : Ctx p N n D) :
+    n.stored.length ≤ n.blks.length + 1 := by
+  have hsub : n.stored ⊆ 0 :: n.blks.map (·.id) := by
+    intro s hs
+    have hr := hc.sound s hs
+    cases hr with
+    | genesis => exact List.mem_cons_self ..
+    | child b par hv _ _ =>
+      have := blk_mem hv.1
+      rw [← hc.blks] at this
+      exact List.mem_cons_of_mem _ (List.mem_map.mpr ⟨b, this, rfl⟩)
+  have := hc.inv.2.nodup.length_le_of_subset hsub
+  simpa using this
+
+/-- every delivered block that passes its own step is stored, or waits in the pool — and then its
+parent is not stored, unless the exception `X` applies (a round of `checkOrphans` is due) -/
+def Pending (p : Params) (N n : Node) (D : List Nat) (X : Blk → Prop) : Prop :=
+  ∀ c par, ValidStep p N c par → c.id ∈ D →
+    c.id ∈ n.stored ∨ (c.id ∈ n.orphans ∧ (par ∉ n.stored ∨ X c))
+
+theorem orphanStep_none {p : Params} {acc : Node × Option Nat} {o : Nat}
+    (h : acc.1.blk o = none) : orphanStep p acc o = acc := by
+  unfold orphanStep; rw [h]
+
+theorem orphanStep_some {p : Params} {acc : Node × Option Nat} {o : Nat} {b : Blk}
+    (h : acc.1.blk o = some b) :
+    orphanStep p acc o = ((processBlockSingle p acc.1 b).1,
+      match (processBlockSingle p acc.1 b).2 with
+      | .err _ => acc.2
+      | _ => some b.h) := by
+  unfold orphanStep; rw [h]
+  simp only
+  generalize processBlockSingle p acc.1 b = x
+  obtain ⟨m, r⟩ := x
+  cases r <;> rfl
+
+/-- the invariant of the loop over the orphans of one height `h` -/
+structure FoldInv (p : Params) (N : Node) (D : List Nat) (h L0 : Nat) (l : List Nat)
+    (acc : Node × Option Nat) : Prop where
+  ctx : Ctx p N acc.1 D
+  pend : ∀ c par, ValidStep p N c par → c.id ∈ D →
+    c.id ∈ acc.1.stored ∨
+    (c.id ∈ acc.1.orphans ∧ (par ∉ acc.1.stored ∨ (acc.2 ≠ none ∧ c.h = h + 1))) ∨ c.id ∈ l
+  acc2 : ∀ x, acc.2 = some x → x = h
+  len : L0 ≤ acc.1.stored.length ∧ (acc.2 ≠ none → L0 < acc.1.stored.length)
+  heights : ∀ o ∈ l, N.heightOf o = h
+  inD : ∀ o ∈ l, o ∈ D
+
+theorem FoldInv.step {p : Params} {N : Node} {D : List Nat} {h L0 : Nat} {o : Nat} {l : List Nat}
+    {acc : Node × Option Nat} (hf : FoldInv p N D h L0 (o :: l) acc) :
+    FoldInv p N D h L0 l (orphanStep p acc o) := by
+  have hho := hf.heights o (List.mem_cons_self ..)
+  have hhl : ∀ o' ∈ l, N.heightOf o' = h := fun o' ho' => hf.heights o' (List.mem_cons_of_mem _ ho')
+  have hdl : ∀ o' ∈ l, o' ∈ D := fun o' ho' => hf.inD o' (List.mem_cons_of_mem _ ho')
+  cases hbo : acc.1.blk o with
+  | none =>
+    rw [orphanStep_none hbo]
+    refine ⟨hf.ctx, ?_, hf.acc2, hf.len, hhl, hdl⟩
+    intro c par hv hd
+    rcases hf.pend c par hv hd with h1 | h1 | h1
+    · exact Or.inl h1
+    · exact Or.inr (Or.inl h1)
+    · rcases List.mem_cons.mp h1 with h2 | h2
+      · exfalso
+        have : acc.1.blk c.id = some c := by rw [blk_congr hf.ctx.blks]; exact hv.1
+        rw [h2, hbo] at this; cases this
+      · exact Or.inr (Or.inr h2)
+  | some b =>
+    rw [orphanStep_some hbo]
+    have hid : b.id = o := blk_id hbo
+    have hb : acc.1.blk b.id = some b := by rw [hid]; exact hbo
+    have hbN : N.blk b.id = some b := by rw [← blk_congr hf.ctx.blks]; exact hb
+    have hbh : b.h = h := by
+      have : N.heightOf o = b.h := by simp [Node.heightOf, ← hid, hbN]
+      rw [← this]; exact hho
+    have hdo : b.id ∈ D := hid ▸ hf.inD o (List.mem_cons_self ..)
+    have hctx' := hf.ctx.single b hb hdo
+    -- the two outcomes of the step
+    have hcore : ((processBlockSingle p acc.1 b).1.stored = acc.1.stored ∧
+          ∃ e, (processBlockSingle p acc.1 b).2 = .err e) ∨
+        ((processBlockSingle p acc.1 b).1.stored = acc.1.stored ++ [b.id] ∧
+          ((processBlockSingle p acc.1 b).2 = .okFork ∨ (processBlockSingle p acc.1 b).2 = .okHead)) := by
+      rcases processBlockSingle_core p acc.1 b with ⟨_, hst, he⟩ | ⟨_, _, _, _, _, _, hst, hd⟩
+      · exact Or.inl ⟨hst, he⟩
+      · right
+        refine ⟨hst, ?_⟩
+        rcases hd with ⟨_, _, r⟩ | ⟨_, _, r⟩
+        · exact Or.inl r
+        · exact Or.inr r
+    refine ⟨hctx', ?_, ?_, ?_, hhl, hdl⟩
+    · intro c par hv hd
+      by_cases hcb : c.id = b.id
+      · have hcb' : c = b := by
+          have := hv.1; rw [hcb, hbN] at this; exact (Option.some.inj this).symm
+        subst hcb'
+        have hv' : ValidStep p acc.1 c par := (ValidStep_congr hf.ctx.outs hf.ctx.blks p c par).mpr hv
+        rcases pbs_validStep p acc.1 c par hf.ctx.inv hv' (hf.ctx.hdrs c.id hd) with h1 | ⟨h1, h2⟩
+        · exact Or.inl h1
+        · exact Or.inr (Or.inl ⟨h1, Or.inl h2⟩)
+      · rcases hf.pend c par hv hd with h1 | ⟨h1, h2⟩ | h1
+        · exact Or.inl (pbs_stored_mono p acc.1 b c.id h1)
+        · refine Or.inr (Or.inl ⟨pbs_pool_mono p acc.1 b c.id h1, ?_⟩)
+          rcases h2 with h2 | ⟨h2, h3⟩
+          · by_cases hps : par ∈ (processBlockSingle p acc.1 b).1.stored
+            · right
+              rcases pbs_stored_sub p acc.1 b par hps with h4 | h4
+              · exact absurd h4 h2
+              · -- the parent is the block just stored
+                rcases hcore with ⟨hst, _⟩ | ⟨_, hr⟩
+                · rw [hst] at hps; exact absurd hps h2
+                · constructor
+                  · rcases hr with hr | hr <;> rw [hr] <;> simp
+                  · obtain ⟨_, hcp, hok, _⟩ := hv
+                    obtain ⟨par', pb, hp', hpb, hh, _⟩ := hok
+                    rw [hcp] at hp'; cases hp'
+                    rw [h4, hbN] at hpb; cases hpb
+                    rw [hh, hbh]
+            · exact Or.inl hps
+          · right
+            refine ⟨?_, h3⟩
+            rcases hcore with ⟨_, e, he⟩ | ⟨_, hr⟩
+            · rw [he]; exact h2
+            · rcases hr with hr | hr <;> rw [hr] <;> simp
+        · rcases List.mem_cons.mp h1 with h2 | h2
+          · exact absurd (h2.trans hid.symm) hcb
+          · exact Or.inr (Or.inr h2)
+    · intro x hx
+      rcases hcore with ⟨_, e, he⟩ | ⟨_, hr⟩
+      · rw [he] at hx; exact hf.acc2 x hx
+      · rcases hr with hr | hr <;> rw [hr] at hx <;> simp at hx <;> omega
+    · rcases hcore with ⟨hst, e, he⟩ | ⟨hst, hr⟩
+      · rw [hst, he]; exact hf.len
+      · rw [hst]
+        simp only [List.length_append, List.length_singleton]
+        exact ⟨by have := hf.len.1; omega, fun _ => by have := hf.len.1; omega⟩
+
+theorem FoldInv.fold {p : Params} {N : Node} {D : List Nat} {h L0 : Nat} (l : List Nat) :
+    ∀ {acc : Node × Option Nat}, FoldInv p N D h L0 l acc →
+      FoldInv p N D h L0 [] (l.foldl (orphanStep p) acc) := by
+  induction l with
+  | nil => intro acc hf; exact hf
+  | cons o l ih => intro acc hf; exact ih hf.step
+
+
+/-- one round of `checkOrphans`: the loop over the pooled blocks of one height -/
+def orphanRound (p : Params) (n : Node) (height : Nat) : Node × Option Nat :=
+  (n.orphans.filter (fun o => n.heightOf o == height)).foldl (orphanStep p)
+    ({ n with orphans := n.orphans.filter (fun o => !(n.heightOf o == height)) }, none)
+
+theorem checkOrphans_round (p : Params) (fuel : Nat) (n : Node) (height : Nat) :
+    checkOrphans p (fuel + 1) n height =
+      if (n.orphans.filter (fun o => n.heightOf o == height)).isEmpty then n else
+      match (orphanRound p n height).2 with
+      | some hAcc => checkOrphans p fuel (orphanRound p n height).1 (hAcc + 1)
+      | none => (orphanRound p n height).1 := by
+  rw [checkOrphans_succ]; rfl
+
+theorem orphanRound_inv {p : Params} {N n : Node} {D : List Nat} {h : Nat} (hc : Ctx p N n D)
+    (hp : Pending p N n D (fun c => c.h = h)) :
+    FoldInv p N D h n.stored.length [] (orphanRound p n h) := by
+  unfold orphanRound
+  apply FoldInv.fold
+  refine ⟨hc.shrink _ (fun o ho => (List.mem_filter.mp ho).1), ?_, fun x hx => (by cases hx),
+    ⟨Nat.le_refl _, fun hne => absurd rfl hne⟩, ?_, ?_⟩
+  · intro c par hv hd
+    have hreg : n.heightOf c.id = c.h := by
+      have : n.blk c.id = some c := by rw [blk_congr hc.blks]; exact hv.1
+      simp [Node.heightOf, this]
+    rcases hp c par hv hd with h1 | ⟨h1, h2⟩
+    · exact Or.inl h1
+    · by_cases hh : c.h = h
+      · right; right
+        exact List.mem_filter.mpr ⟨h1, by simp [hreg, hh]⟩
+      · right; left
+        refine ⟨List.mem_filter.mpr ⟨h1, by simp [hreg, hh]⟩, Or.inl ?_⟩
+        rcases h2 with h2 | h2
+        · exact h2
+        · exact absurd h2 hh
+  · intro o ho
+    have := (List.mem_filter.mp ho).2
+    rw [← heightOf_congr hc.blks]
+    simpa using this
+  · intro o ho
+    exact hc.pool o (List.mem_filter.mp ho).1
+
+/-- **`checkOrphans` settles the pool**: started at the height where pooled blocks with a stored
+parent may wait, with enough fuel, it ends with every delivered block that passes its own step
+either stored or pooled under a parent that is not stored -/
+theorem checkOrphans_quiescent (p : Params) (N : Node) (D : List Nat) (fuel : Nat) :
+    ∀ (n : Node) (h : Nat), Ctx p N n D → Pending p N n D (fun c => c.h = h) →
+      n.blks.length + 2 ≤ fuel + n.stored.length →
+      Ctx p N (checkOrphans p fuel n h) D ∧ Pending p N (checkOrphans p fuel n h) D (fun _ => False) := by
+  induction fuel with
+  | zero =>
+    intro n h hc _ hfuel
+    have := hc.stored_le
+    omega
+  | succ k ih =>
+    intro n h hc hp hfuel
+    rw [checkOrphans_round]
+    split
+    · rename_i hemp
+      refine ⟨hc, ?_⟩
+      intro c par hv hd
+      rcases hp c par hv hd with h1 | ⟨h1, h2⟩
+      · exact Or.inl h1
+      · rcases h2 with h2 | h2
+        · exact Or.inr ⟨h1, Or.inl h2⟩
+        · exfalso
+          have hreg : n.heightOf c.id = c.h := by
+            have : n.blk c.id = some c := by rw [blk_congr hc.blks]; exact hv.1
+            simp [Node.heightOf, this]
+          have : c.id ∈ n.orphans.filter (fun o => n.heightOf o == h) :=
+            List.mem_filter.mpr ⟨h1, by simp [hreg, h2]⟩
+          rw [List.isEmpty_iff.mp hemp] at this
+          cases this
+    · have F := orphanRound_inv hc hp
+      cases hst : (orphanRound p n h).2 with
+      | none =>
+        simp only
+        refine ⟨F.ctx, ?_⟩
+        intro c par hv hd
+        rcases F.pend c par hv hd with h1 | ⟨h1, h2⟩ | h1
+        · exact Or.inl h1
+        · rcases h2 with h2 | ⟨h2, _⟩
+          · exact Or.inr ⟨h1, Or.inl h2⟩
+          · exact absurd hst h2
+        · cases h1
+      | some hAcc =>
+        simp only
+        have hh : hAcc = h := F.acc2 hAcc hst
+        subst hh
+        apply ih _ _ F.ctx
+        · intro c par hv hd
+          rcases F.pend c par hv hd with h1 | ⟨h1, h2⟩ | h1
+          · exact Or.inl h1
+          · rcases h2 with h2 | ⟨_, h2⟩
+            · exact Or.inr ⟨h1, Or.inl h2⟩
+            · exact Or.inr ⟨h1, Or.inr h2⟩
+          · cases h1
+        · have hl := F.len.2 (by rw [hst]; simp)
+          have hb : (orphanRound p n hAcc).1.blks.length = n.blks.length := by
+            rw [F.ctx.blks, hc.blks]
+          omega
+
+
+theorem Ctx.grow {p : Params} {N n : Node} {D : List Nat} (hc : Ctx p N n D) (d : Nat)
+    (hh : d ∈ n.headers) : Ctx p N n (d :: D) :=
+  ⟨hc.blks, hc.outs, hc.inv, fun o ho => List.mem_cons_of_mem _ (hc.pool o ho),
+   fun x hx => by
+     rcases List.mem_cons.mp hx with h | h
+     · exact h ▸ hh
+     · exact hc.hdrs x h,
+   fun s hs => (hc.sound s hs).mono (fun x hx => List.mem_cons_of_mem _ hx)⟩
+
+/-- **one block delivery keeps the node quiescent** (with respect to the delivered set extended by
+the block), provided the block's header is known -/
+theorem deliverBlock_quiescent {p : Params} {N n : Node} {D : List Nat} (b : Blk)
+    (hc : Ctx p N n D) (hq : Pending p N n D (fun _ => False)) (hb : n.blk b.id = some b)
+    (hh : b.id ∈ n.headers) :
+    Ctx p N (deliverBlock p n b).1 (b.id :: D) ∧
+    Pending p N (deliverBlock p n b).1 (b.id :: D) (fun _ => False) := by
+  have hbN : N.blk b.id = some b := by rw [← blk_congr hc.blks]; exact hb
+  have F0 : FoldInv p N (b.id :: D) b.h n.stored.length [b.id] (n, none) := by
+    refine ⟨hc.grow b.id hh, ?_, fun x hx => (by cases hx),
+      ⟨Nat.le_refl _, fun hne => absurd rfl hne⟩, ?_, ?_⟩
+    · intro c par hv hd
+      rcases List.mem_cons.mp hd with h | h
+      · right; right; rw [h]; exact List.mem_cons_self ..
+      · rcases hq c par hv h with h1 | ⟨h1, h2⟩
+        · exact Or.inl h1
+        · rcases h2 with h2 | h2
+          · exact Or.inr (Or.inl ⟨h1, Or.inl h2⟩)
+          · exact absurd h2 id
+    · intro o ho
+      have : o = b.id := by simpa using ho
+      subst this
+      simp [Node.heightOf, hbN]
+    · intro o ho
+      have : o = b.id := by simpa using ho
+      subst this
+      exact List.mem_cons_self ..
+  have F := F0.step
+  rw [orphanStep_some (acc := (n, none)) hb] at F
+  unfold deliverBlock
+  cases hr : processBlockSingle p n b with
+  | mk n1 r =>
+    rw [hr] at F
+    have hctx : Ctx p N n1 (b.id :: D) := F.ctx
+    cases r with
+    | err e =>
+      simp only
+      refine ⟨hctx, ?_⟩
+      intro c par hv hd
+      rcases F.pend c par hv hd with h1 | ⟨h1, h2⟩ | h1
+      · exact Or.inl h1
+      · rcases h2 with h2 | ⟨h2, _⟩
+        · exact Or.inr ⟨h1, Or.inl h2⟩
+        · exact absurd rfl h2
+      · cases h1
+    | okHead =>
+      simp only
+      apply checkOrphans_quiescent p N (b.id :: D) _ n1 (b.h + 1) hctx
+      · intro c par hv hd
+        rcases F.pend c par hv hd with h1 | ⟨h1, h2⟩ | h1
+        · exact Or.inl h1
+        · rcases h2 with h2 | ⟨_, h2⟩
+          · exact Or.inr ⟨h1, Or.inl h2⟩
+          · exact Or.inr ⟨h1, Or.inr h2⟩
+        · cases h1
+      · omega
+    | okFork =>
+      simp only
+      apply checkOrphans_quiescent p N (b.id :: D) _ n1 (b.h + 1) hctx
+      · intro c par hv hd
+        rcases F.pend c par hv hd with h1 | ⟨h1, h2⟩ | h1
+        · exact Or.inl h1
+        · rcases h2 with h2 | ⟨_, h2⟩
+          · exact Or.inr ⟨h1, Or.inl h2⟩
+          · exact Or.inr ⟨h1, Or.inr h2⟩
+        · cases h1
+      · omega
+
+theorem processHeader_headers_mono {p : Params} {n n' : Node} {b : Blk}
+    (h1 : processHeader p n b = .ok n') (h : Nat) (hm : h ∈ n.headers) : h ∈ n'.headers := by
+  rcases processHeader_ok_cases p n n' b h1 with ⟨e, _⟩ | ⟨_, _, e⟩
+  · rw [e]; exact hm
+  · rw [e]; exact (hdrUpdate_headers_mem n b h).mpr (Or.inl hm)
+
+theorem deliverHeader_headers_mono (p : Params) (n : Node) (b : Blk) (h : Nat) (hm : h ∈ n.headers) :
+    h ∈ (deliverHeader p n b).1.headers := by
+  unfold deliverHeader
+  split
+  · exact hm
+  · rename_i n' hn; exact processHeader_headers_mono hn h hm
+
+theorem deliverHeader_quiescent {p : Params} {N n : Node} {D : List Nat} (b : Blk)
+    (hc : Ctx p N n D) (hq : Pending p N n D (fun _ => False)) (hb : n.blk b.id = some b) :
+    Ctx p N (deliverHeader p n b).1 D ∧ Pending p N (deliverHeader p n b).1 D (fun _ => False) := by
+  have hmono := deliverHeader_headers_mono p n b
+  have hinv := deliverHeader_preserved (preserved_inv p) n b hb hc.inv
+  have hdf := deliverHeader_defs p n b
+  unfold deliverHeader at *
+  split
+  · exact ⟨hc, hq⟩
+  · rename_i n' hn
+    simp only [hn] at hinv hmono hdf
+    have hf := processHeader_frame p n n' b hn
+    refine ⟨⟨hf.2.2.1.trans hc.blks, hf.2.2.2.2.trans hc.outs, hinv,
+      fun o ho => hc.pool o (hf.2.2.2.1 ▸ ho), fun d hd => hmono d (hc.hdrs d hd),
+      fun s hs => hc.sound s (hf.2.1 ▸ hs)⟩, ?_⟩
+    intro c par hv hd
+    rw [hf.2.1, hf.2.2.2.1]
+    exact hq c par hv hd
+
+theorem step_headers_mono (p : Params) (n : Node) (e : Event) (h : Nat) (hm : h ∈ n.headers) :
+    h ∈ (step p n e).headers := by
+  cases e with
+  | header b => exact deliverHeader_headers_mono p n b h hm
+  | block b =>
+    show h ∈ (deliverBlock p n b).1.headers
+    -- headers only grow: `Preserved` with the predicate "h is known"
+    have hP : Preserved p (fun m => h ∈ m.headers) :=
+      ⟨fun m b' _ hm' => pbs_headers_mono p m b' h hm', fun _ _ hm' => hm',
+       fun _ _ _ _ hn hm' => processHeader_headers_mono hn h hm'⟩
+    unfold deliverBlock
+    have h1 := pbs_headers_mono p n b h hm
+    cases hr : processBlockSingle p n b with
+    | mk n1 r =>
+      rw [hr] at h1
+      cases r with
+      | err e => exact h1
+      | okHead => exact checkOrphans_preserved hP _ _ _ h1
+      | okFork => exact checkOrphans_preserved hP _ _ _ h1
+
+/-- **any delivery order**: after a history of registered blocks whose headers were all known
+beforehand, the node is quiescent with respect to the delivered set -/
+theorem run_quiescent (p : Params) (N : Node) (es : List Event) : ∀ (n : Node) (D : List Nat),
+    Registered n es → (∀ id ∈ blockIds es, id ∈ n.headers) → Ctx p N n D →
+    Pending p N n D (fun _ => False) →
+    ∃ D', (∀ id, id ∈ D' ↔ id ∈ blockIds es ∨ id ∈ D) ∧ Ctx p N (run p n es) D' ∧
+      Pending p N (run p n es) D' (fun _ => False) := by
+  induction es with
+  | nil => intro n D _ _ hc hq; exact ⟨D, by simp [blockIds], hc, hq⟩
+  | cons e es ih =>
+    intro n D hreg hk hc hq
+    rw [run_cons]
+    have hreg' := hreg.tail p
+    have hb := hreg e (List.mem_cons_self ..)
+    cases e with
+    | header b =>
+      obtain ⟨hc', hq'⟩ := deliverHeader_quiescent b hc hq hb
+      obtain ⟨D', hD', h⟩ := ih (step p n (.header b)) D hreg'
+        (fun id hid => step_headers_mono p n _ id (hk id hid)) hc' hq'
+      exact ⟨D', by simpa [blockIds] using hD', h⟩
+    | block b =>
+      have hh : b.id ∈ n.headers := hk b.id (by simp [blockIds])
+      obtain ⟨hc', hq'⟩ := deliverBlock_quiescent b hc hq hb hh
+      obtain ⟨D', hD', h⟩ := ih (step p n (.block b)) (b.id :: D) hreg'
+        (fun id hid => step_headers_mono p n _ id (hk id (by simp [blockIds, hid]))) hc' hq'
+      refine ⟨D', ?_, h⟩
+      intro id
+      rw [hD' id]
+      simp only [blockIds, List.mem_cons]
+      constructor
+      · rintro (h | h | h)
+        · exact Or.inl (Or.inr h)
+        · exact Or.inl (Or.inl h)
+        · exact Or.inr h
+      · rintro ((h | h) | h)
+        · exact Or.inr (Or.inl h)
+        · exact Or.inl h
+        · exact Or.inr (Or.inr h)
+
+/-- a node that has seen headers only: nothing but the genesis stored, empty pool, invariants hold -/
+structure HeadersOnly (p : Params) (n : Node) : Prop where
+  stored : n.stored = [0]
+  head : n.head = 0
+  orphans : n.orphans = []
+  inv : Inv p n
+
+theorem Fresh.headersOnly {n : Node} (p : Params) (h : Fresh n) : HeadersOnly p n :=
+  ⟨h.stored, h.head, h.orphans, h.inv p⟩
+
+/-- delivering headers (only) to such a node keeps it such a node -/
+theorem HeadersOnly.deliverHeader {p : Params} {n : Node} (h : HeadersOnly p n) (b : Blk)
+    (hb : n.blk b.id = some b) : HeadersOnly p (deliverHeader p n b).1 := by
+  have hinv := deliverHeader_preserved (preserved_inv p) n b hb h.inv
+  unfold GV.Chain.deliverHeader at *
+  split
+  · exact h
+  · rename_i n' hn
+    simp only [hn] at hinv
+    have hf := processHeader_frame p n n' b hn
+    exact ⟨hf.2.1 ▸ h.stored, hf.1 ▸ h.head, hf.2.2.2.1 ▸ h.orphans, hinv⟩
+
+/-- the state "headers first" is reached from a fresh node by header deliveries -/
+theorem HeadersOnly.after_headers (p : Params) (n : Node) (bs : List Blk) (hf : Fresh n)
+    (hreg : Registered n (bs.map Event.header)) : HeadersOnly p (run p n (bs.map Event.header)) := by
+  have : ∀ (bs : List Blk) (m : Node), HeadersOnly p m → Registered m (bs.map Event.header) →
+      HeadersOnly p (run p m (bs.map Event.header)) := by
+    intro bs
+    induction bs with
+    | nil => intro m hm _; exact hm
+    | cons b bs ih =>
+      intro m hm hr
+      simp only [List.map_cons, run_cons]
+      exact ih _ (hm.deliverHeader b (hr (.header b) (List.mem_cons_self ..))) (hr.tail p)
+  exact this bs n (hf.headersOnly p) hreg
+
+/-- **the store after any delivery order** (headers known first, children before parents allowed,
+duplicates and invalid blocks anywhere): exactly the blocks reachable within the delivered set —
+the block and all its ancestors delivered and passing their own step -/
+theorem stored_after_any_order (p : Params) (n : Node) (es : List Event) (hn : HeadersOnly p n)
+    (hreg : Registered n es) (hk : ∀ id ∈ blockIds es, id ∈ n.headers) (id : Nat) :
+    id ∈ (run p n es).stored ↔ Reach p n (blockIds es) id := by
+  have hc0 : Ctx p n n [] := by
+    refine ⟨rfl, rfl, hn.inv, ?_, ?_, ?_⟩
+    · intro o ho
+      rw [hn.orphans] at ho
+      cases ho
+    · intro d hd
+      cases hd
+    · intro s hs
+      rw [hn.stored] at hs
+      have : s = 0 := by simpa using hs
+      rw [this]; exact .genesis
+  have hq0 : Pending p n n [] (fun _ => False) := fun c par _ hd => by cases hd
+  obtain ⟨D', hD', hc, hq⟩ := run_quiescent p n es n [] hreg hk hc0 hq0
+  constructor
+  · intro h
+    exact (hc.sound id h).mono (fun x hx => by
+      rcases (hD' x).mp hx with h | h
+      · exact h
+      · cases h)
+  · intro h
+    induction h with
+    | genesis => exact hc.inv.2.closed.zero
+    | child b par hv _ hd ih =>
+      rcases hq b par hv ((hD' b.id).mpr (Or.inl hd)) with h1 | ⟨_, h2 | h2⟩
+      · exact h1
+      · exact absurd ih h2
+      · exact h2.elim
+
 end GV.Chain
